@@ -165,4 +165,8 @@ theorem exception_value_never_blocks_the_queue :
     Queue.ShapeGen.reduceGuardsAll = true ∧ Queue.ShapeGen.reduceGuardsType = true ∧
     Queue.ShapeGen.loadGuardsAll = true := by decide
 
+/-- tie G for "no loss when the program simply ends": the clean-up that drains the queue (`logger.remove`, whose
+effect on the owner's worker is `owner_remove_drains`) is registered with `atexit` unconditionally at import. -/
+theorem exit_drain_registered_unconditionally : Queue.ShapeGen.atexitRemoveUnconditional = true := by decide
+
 end C03
